@@ -18,7 +18,7 @@ Keywords == {"var", "function", "return", "if", "else", "while", "do", "for", "i
              "instanceof", "this", "true", "false", "null", "void"}
 UnOps    == {"-", "+", "!", "~", "typeof", "void", "delete"}
 UpdOps   == {"++", "--"}
-AssignOps == {"=", "+=", "-=", "*=", "/=", "%=", "&=", "|=", "^=", "<<=", ">>=", ">>>="}
+AssignOps == {"=", "+=", "-=", "*=", "/=", "%=", "**=", "&=", "|=", "^=", "<<=", ">>=", ">>>="}
 \* binary operators with their ECMAScript level (higher binds tighter); "," is level 1
 BinLevel == [x \in {",", "||", "&&", "|", "^", "&", "==", "!=", "===", "!==", "<", ">", "<=", ">=", "in",
                     "instanceof", "<<", ">>", ">>>", "+", "-", "*", "/", "%", "**"} |->
@@ -197,6 +197,8 @@ PAssign(ts, pi, dv) ==
   THEN LET bd == PAssign(ts, pi + 2, dv) IN IF ~bd.ok THEN bd ELSE Ok(Node("arrow", Tok(ts, pi), <<bd.t>>), bd.n)
   ELSE IF Tok(ts, pi) = "(" /\ IsIdent(Tok(ts, pi + 1)) /\ Tok(ts, pi + 2) = ")" /\ Tok(ts, pi + 3) = "=>"
   THEN LET bd == PAssign(ts, pi + 4, dv) IN IF ~bd.ok THEN bd ELSE Ok(Node("arrow", Tok(ts, pi + 1), <<bd.t>>), bd.n)
+  ELSE IF Tok(ts, pi) = "(" /\ Tok(ts, pi + 1) = ")" /\ Tok(ts, pi + 2) = "=>"
+  THEN LET bd == PAssign(ts, pi + 3, dv) IN IF ~bd.ok THEN bd ELSE Ok(Node("arrow", "", <<bd.t>>), bd.n)
   ELSE LET cd == PCond(ts, pi, dv) IN
        IF ~cd.ok THEN cd
        ELSE IF Tok(ts, cd.n) \in AssignOps
@@ -245,9 +247,12 @@ PPostfix(ts, pi, dv) ==
   THEN IF ~TargetOK(ct.t, dv) THEN Fail(ct.n) ELSE Ok(Node("post", Tok(ts, ct.n), <<ct.t>>), ct.n + 1)
   ELSE ct
 
-\* items separated by commas up to the closing token `cl`; pi = position after the opener
+\* items separated by commas up to the closing token `cl`; pi = position after the opener.  A trailing comma is
+\* allowed (ES2017 argument lists, array literals) and an array literal may contain elisions ([a, , b]); neither is
+\* ever printed, and an elision adds no element to the tree (only acceptance is judged on such texts).
 PList(ts, pi, cl, acc, dv) ==
-  IF Tok(ts, pi) = cl /\ acc = <<>> THEN OkArgs(<<>>, pi + 1)
+  IF Tok(ts, pi) = cl THEN OkArgs(acc, pi + 1)
+  ELSE IF cl = "]" /\ Tok(ts, pi) = "," THEN PList(ts, pi + 1, cl, acc, dv)
   ELSE LET it == PAssign(ts, pi, dv) IN
        IF ~it.ok THEN FailArgs(it.n)
        ELSE IF Tok(ts, it.n) = "," THEN PList(ts, it.n + 1, cl, Append(acc, it.t), dv)
@@ -308,6 +313,20 @@ PPrimary(ts, pi, dv) ==
   ELSE IF kw = "[" THEN LET el == PList(ts, pi + 1, "]", <<>>, dv) IN
                         IF ~el.ok THEN Fail(el.n) ELSE Ok(Node("arr", "", el.args), el.n)
   ELSE Fail(pi)
+
+\* A program made of expression statements, empty statements and labels, with the engine's documented tolerance of
+\* missing separators (a statement may follow an expression statement directly).  [ok, at]: at = index of the first
+\* token that cannot continue any program of this (superset) grammar, Len + 1 for the end of input.
+RECURSIVE PStmts(_, _, _)
+PStmts(ts, pi, dv) ==
+  IF pi > Len(ts) THEN [ok |-> TRUE, at |-> 0]
+  ELSE IF ts[pi] = ";" THEN PStmts(ts, pi + 1, dv)
+  ELSE IF IsIdent(ts[pi]) /\ Tok(ts, pi + 1) = ":"
+       THEN IF pi + 2 > Len(ts) THEN [ok |-> FALSE, at |-> pi + 2] ELSE PStmts(ts, pi + 2, dv)
+  ELSE LET res == PExpr(ts, pi, dv) IN
+       IF ~res.ok THEN [ok |-> FALSE, at |-> res.n]
+       ELSE PStmts(ts, IF Tok(ts, res.n) = ";" THEN res.n + 1 ELSE res.n, dv)
+ParseStmtsD(ts, dv) == PStmts(ts, 1, dv)
 
 ParseExprD(ts, dv) ==
   LET res == PExpr(ts, 1, dv) IN
